@@ -2,7 +2,8 @@ CONFIG = dict(
         level='proof',
         streams=[
             dict(harness='c11', driver='c11', shrink_field='text'),
-            # blobs with more than 55 295 distinct lines (megabytes per case): a stream of its own, not shrunk
+            # large cases (id-space family around 55 296 .. 67 585 distinct lines, scale family 10^3 .. 10^6 lines; up to
+            # megabytes per case): a stream of its own, not shrunk
             dict(harness='c11big', driver='c11'),
         ],
         search_scale=0.5,
@@ -11,9 +12,19 @@ CONFIG = dict(
              'the modification) and LinesStatsCalculator: all pairs of strings over small alphabets up to length 3-4 x 4 configurations, '
              'random line texts from a vocabulary with duplicates, CRLF, missing final newline, invalid UTF-8, tabs/spaces-only lines and '
              'their edited versions (block delete/insert/replace/move/duplicate, whitespace-only changes), random byte soups, blobs ending in '
-             'whitespace-only lines, NUL bytes around the 8000-byte sniff window, 3000-line texts under 1-5 ms timeouts, and (stream c11big) '
-             'blobs with 57 400 / 66 000 distinct lines. Non-trivial = both blobs non-empty and different; distinct = distinct '
-             '(configuration, old bytes, new bytes).',
+             'whitespace-only lines, NUL bytes around the 8000-byte sniff window, 3000-line texts under 1-5 ms timeouts; the timeout option '
+             'also given as 0 and -1 (warning path). Stream c11big, large pairs judged by the property oracle at the end of the case: '
+             '(a) id-space family (kinds ids-*): files with N distinct lines, N straddling 0xD7FF/0xD800, 0xDFFF/0xE000, 0xE7FF/0xE800, '
+             '0xFFFF/0x10000 (quick: a dozen pairs; thorough: N = c-1, c, c+1 for each constant), edited relative to the line-identifier '
+             'space: single lines and runs of 2-3 replaced by / inserted before lines whose identifiers differ by exactly 0x800 or another '
+             'power of two (fresh lines: position N+1-d; existing lines: first, middle, last position and every boundary of the '
+             'identifier space), blocks of 1, 2, 0x400, 0x800, 0x1000 lines deleted at the first / middle / last line of the surrogate '
+             'block, swapped neighbours, random edits; in every such case the identifiers FileDiff handed to the diff engine (read back '
+             'from the texts of the runs) are compared with shift_id of the model; (b) scale family (kinds scale-*): 10^3, 10^4, 10^5 '
+             '(thorough also 10^6) lines ascending / reversed / random / periodic with periods 2^k and 2^k+-1, 255-257, 1023-1025, '
+             '2^15+-1, 2^16+-1 lines, single lines of 2^8+-1, 2^10+-1, 2^12+-1, 2^16+-1 (thorough 2^20+1) bytes, blobs of exactly '
+             '2^10+-1, 2^12+-1, 2^16+-1 bytes; all x cleanup x whitespace-ignore x timeout (none, 0, 1, 100, 1000 ms) x final newline. '
+             'Non-trivial = both blobs non-empty and different; distinct = distinct (configuration, old bytes, new bytes).',
         exhaustive_note='quick: all pairs of strings of length <=3 over {a,b,LF,space} and of length <=4 over {a,LF}, x cleanup x whitespace-ignore; '
                         'thorough: length <=4 over {a,b,LF,space} and length <=3 over {a,LF,space,CR,0xff}',
         assumptions=[
@@ -25,7 +36,8 @@ CONFIG = dict(
             'the diff under a timeout depends on wall-clock time: its output is validated, not reproduced',
         ],
         trusted_base=[
-            'hand-written Gallina models coq/theories/Plumbing/LineCount.v (CachedBlob.CountLines, diffLinesToRunesMunge of go-diff, stripWhitespace) '
+            'hand-written Gallina models coq/theories/Plumbing/LineCount.v (CachedBlob.CountLines, diffLinesToRunesMunge of go-diff, stripWhitespace, '
+            'shift_id = the identifier shift of FileDiff.Consume, compared on every case through the texts of the diff runs) '
             'and Script.v (handleModification, LinesStatsCalculator.Consume/Modify), tied to the code by the replay of every harness case',
             'hook files /repo/internal/plumbing/verif_c11.go (exports stripWhitespace) and /repo/verifapi/c11/c11.go (type aliases)',
         ],
